@@ -137,6 +137,17 @@ def branch_input_variants(S):
         Kp = psmp.calls[-1]["tensor"].val
         S.ensure("one-row-per-function", D.shape[0].size_term() == zint(K))
         S.forall("entry-b-i-is-function-b-at-point-i", Tensor(D), lambda q: zreal(D.at(q)) == fn.value_terms([zreal(Kp.at([q[0], ()])), zreal(P.at([q[1], ()]))])[0])
+        # history: fixing the input to the same function set AGAIN draws new functions; the branch must see those
+        n_par = len(psmp.calls)
+        S.method(br, "fix_input", fset)
+        S.ensure("second-fix-draws-new-functions-and-evaluates-the-branch-again", len(seen) == 2 and len(psmp.calls) == n_par + 1)
+        if len(seen) == 2 and len(psmp.calls) == n_par + 1:
+            D2 = tensor_of(seen[1])
+            P2, Kp2 = disc.calls[-1]["tensor"].val, psmp.calls[-1]["tensor"].val
+            if D2.rank == 3:
+                S.forall("second-evaluation-is-on-the-NEWLY-drawn-functions", Tensor(D2), lambda q: zreal(D2.at(q)) == fn.value_terms([zreal(Kp2.at([q[0], ()])), zreal(P2.at([q[1], ()]))])[0])
+            else:
+                S.ensure("second-input-has-function-axis-points-axis-values", False)
     elif S.cfg == "callable":
         P = disc.calls[-1]["tensor"].val
         S.ensure("one-function", D.shape[0].is_one)
